@@ -18,6 +18,7 @@ ObjsT    == Traces[1].objs
 DocsT    == Traces[1].docs
 PathsT   == Traces[1].paths
 StreamsT == ToSet(Traces[1].streams)
+SrcsT    == Traces[1].srcpaths
 
 (* the outcome the table demands against the outcome observed *)
 Same(exp, e) ==
@@ -36,16 +37,22 @@ TDumps == /\ Ev.ev = "dumps" /\ DumpsAny(Ev.obj, Ev.fmtarg)
           /\ Ev.out = "ok" => last'.val = Ev.val
 TLoad == /\ Ev.ev = "load" /\ LoadAny(Ev.fn, Ev.doc, Ev.fmtarg, Ev.src, Ev.otype, Ev.named, Ev.keyed)
          /\ IF Same(last', Ev) THEN TRUE ELSE FALSE
+TReplace == /\ Ev.ev = "replace" /\ ReplaceAny(Ev.sp, Ev.doc)
+            /\ srcs' = Ev.srcs                                 \* which document every source path holds, as observed
+TLoadSrc == /\ Ev.ev = "loadsrc" /\ LoadSrcAny(Ev.fn, Ev.sp, Ev.fmtarg, Ev.src, Ev.otype, Ev.named, Ev.keyed)
+            /\ IF Same(last', Ev) THEN TRUE ELSE FALSE
 TLoadBack == /\ Ev.ev = "loadback" /\ LoadBack(Ev.fn, Ev.tgt, Ev.otype, Ev.named)
              /\ IF Same(last', Ev) THEN TRUE ELSE FALSE
 
 Step == /\ ti <= NT /\ l <= Len(Tr)
-        /\ (TDump \/ TDumps \/ TLoad \/ TLoadBack)
+        /\ (TDump \/ TDumps \/ TLoad \/ TLoadBack \/ TReplace \/ TLoadSrc)
         /\ l' = l + 1 /\ ti' = ti
 
 Reset == /\ files' = [p \in DOMAIN Paths |-> Absent]
          /\ streams' = [s \in Streams |-> [open |-> TRUE, content |-> <<>>]]
          /\ nd' = 0 /\ last' = [act |-> "init"]
+         /\ srcs' = [p \in DOMAIN SrcPaths |-> "none"] /\ nr' = 0 /\ cur' = "none"
+         /\ memo' = [p \in DOMAIN SrcPaths |-> "none"]
 NextTrace == ti' = ti + 1 /\ l' = 1 /\ Reset
 Finish == /\ ti <= NT /\ l = Len(Tr) + 1
           /\ PrintT(<<"VERDICT", Traces[ti].tid, "ACCEPT">>)
